@@ -18,7 +18,7 @@ CHECKS = {
     ),
     "C17": dict(
         engine="codec", level="exploration",
-        args=dict(quick=["-budget", "6", "-valdev", "1", "-entries", "2"],
+        args=dict(quick=["-budget", "5", "-valdev", "1", "-entries", "2"],
                   thorough=["-budget", "7", "-valdev", "2", "-entries", "3"]),
         deadline=dict(quick=110, thorough=1500),
         rule="every message of the enumerated space (as C01, with values entering through constructor, Set and FromBytes, and with populated trailer fields) is serialised and its field list between MsgType and CheckSum compared with the reference field list of the population. Non-trivial-distinct key: (typed body shape, body population, header/trailer population, set of value routes used).",
@@ -26,7 +26,7 @@ CHECKS = {
     ),
     "C02": dict(
         engine="codec", level="exploration",
-        args=dict(quick=["-budget", "6", "-valdev", "1", "-entries", "2"],
+        args=dict(quick=["-budget", "5", "-valdev", "1", "-entries", "2"],
                   thorough=["-budget", "7", "-valdev", "2", "-entries", "3"]),
         deadline=dict(quick=110, thorough=1500),
         rule="every message of the enumerated space that satisfies the stated preconditions (unique tags, first field of each entry populated, non-empty values) is serialised, parsed into a fresh empty message of the same template in strict and non-strict mode, compared leaf by leaf (dynamic type and value; floats bit-equal; times Equal and UTC; entry counts and order) and re-serialised (byte-identical). Non-trivial-distinct key: (typed body shape, populations, non-default values present).",
